@@ -401,6 +401,82 @@ class SimThreadEvent(_KernelObject):
     pass
 
 
+class SimCondition(_KernelObject):
+    """threading.Condition over a simulated (R)Lock: wait() releases the lock, parks the caller until it is notified
+    (or, with a timeout, until the timeout fires - which the kernel allows only when nothing else can run), and takes
+    the lock again; notify(n) wakes the n longest-waiting callers. Spurious wake-ups are not generated: code that is
+    correct only with them would be wrong anyway, code that is correct without them is what CPython gives."""
+
+    def __init__(self, kernel, name, lock=None):
+        self.k = kernel
+        self.role = name
+        self._lock = lock if lock is not None else SimThreadRLock(kernel, name + ".lock")
+        self._waiters = []      # tokens of parked callers, oldest first; a notified token is removed
+
+    def acquire(self, *a, **kw):
+        return self._lock.acquire(*a, **kw)
+
+    def release(self):
+        return self._lock.release()
+
+    def __enter__(self):
+        return self._lock.__enter__()
+
+    def __exit__(self, *a):
+        return self._lock.__exit__(*a)
+
+    def _owned(self):
+        if hasattr(self._lock, "owner"):
+            return self._lock.owner is self.k.current
+        return bool(getattr(self._lock, "held", True))
+
+    def wait(self, timeout=None):
+        k = self.k
+        if not self._owned():
+            raise RuntimeError("cannot wait on un-acquired lock")
+        k.switch(f"{self.role}.wait", sync=True)
+        token = object()
+        self._waiters.append(token)
+        # release completely (an RLock may be held several times), remember the depth
+        depth = getattr(self._lock, "count", 1) or 1
+        for _ in range(depth):
+            self._lock.release()
+        notified = lambda: not any(t is token for t in self._waiters)  # noqa: E731
+        if timeout is None:
+            k.block(notified, (self.role, "wait"))
+            ok = True
+        else:
+            ok = k.timed_block(notified, (self.role, "wait")) if timeout > 0 else notified()
+            if not ok:
+                self._waiters[:] = [t for t in self._waiters if t is not token]
+        for _ in range(depth):
+            self._lock.acquire()
+        return ok
+
+    def wait_for(self, predicate, timeout=None):
+        result = predicate()
+        while not result:
+            if not self.wait(timeout) and timeout is not None:
+                return predicate()
+            result = predicate()
+        return result
+
+    def notify(self, n=1):
+        if not self._owned():
+            raise RuntimeError("cannot notify on un-acquired lock")
+        self.k.switch(f"{self.role}.notify", sync=True)
+        del self._waiters[:n]
+
+    def notify_all(self):
+        self.notify(len(self._waiters))
+
+    notifyAll = notify_all
+
+    def __deepcopy__(self, memo):
+        # a fork: the child has the lock in its current state and none of the parent's waiting threads
+        return SimCondition(self.k, self.role, copy.deepcopy(self._lock, memo))
+
+
 class SimEvent(_KernelObject):
     def __init__(self, kernel, name="event"):
         self.k = kernel
@@ -911,8 +987,12 @@ class ThreadingShim:
         self._n += 1
         return SimThreadRLock(self._k, f"trlock{self._n - 1}")
 
+    def Condition(self, lock=None):
+        self._n += 1
+        return SimCondition(self._k, f"tcond{self._n - 1}", lock)
+
     def __getattr__(self, name):
-        if name in ("Condition", "Semaphore", "BoundedSemaphore", "Barrier", "Timer"):
+        if name in ("Semaphore", "BoundedSemaphore", "Barrier", "Timer"):
             # a real blocking primitive would block the baton holder and wedge the simulation
             raise SimUnsupported(f"threading.{name} is not modelled by the simulator")
         return getattr(self._t, name)
